@@ -26,6 +26,9 @@ func newFiniteScanner(ev *hermes.VerifEvent) *finiteScanner {
 	fs.add("g", reflect.ValueOf(ev.G).Elem())
 	fs.add("water", reflect.ValueOf(ev.W).Elem())
 	fs.add("nitro", reflect.ValueOf(ev.N).Elem())
+	if ev.C != nil {
+		fs.add("crop", reflect.ValueOf(ev.C).Elem())
+	}
 	return fs
 }
 
